@@ -23,7 +23,9 @@ const (
 	posUnknown
 )
 
-func posName(p int) string { return [...]string{"outside a string", "inside a string", "conflicting", "unknown"}[p] }
+func posName(p int) string {
+	return [...]string{"outside a string", "inside a string", "conflicting", "unknown"}[p]
+}
 
 type encoderSet struct {
 	rel   string
